@@ -25,9 +25,32 @@
    inside critical sections of one mutex (cachex shard maps, WaitClose fields under
    wc.mutex) never race.
    c18_*_refuted: the pre-fix patterns (status check reading err without having observed
-   the completion; two unordered writers of the task result) do race, in both senses. *)
+   the completion; two unordered writers of the task result) do race, in both senses.
+
+   MODEL-LEVEL theorems (loom.Queue, loom.WaitClose, loom.Wheel).  For these three components
+   race freedom is not only a statement about the abstract protocol: the steps of the
+   small-step models themselves (models/Queue.v, WaitClose.v, Wheel.v - the models that are
+   stepped against the real code under the cooperative scheduler by C01/C02, C03/C04, C09) are
+   labelled with the memory events of the code they stand for (models/RaceQueue.v,
+   RaceWaitClose.v, RaceWheel.v: atomic load = acquire, successful CAS = acquire-release,
+   failed CAS = acquire, atomic store = release (plus a write of the cell where the cell is
+   also read plainly), Lock/Unlock = acquire/release, plain field accesses = reads/writes),
+   and c18_queue_model_race_free / c18_waitclose_model_race_free / c18_wheel_model_race_free
+   say: the trace of memory events of EVERY run of the labelled model (all thread counts,
+   programs, schedules; prefilled queues; timer events; both store orders of onTicker) has
+   no happens-before race.  c18_*_model_conflicts_ordered is the same statement in positive
+   form: every conflicting pair of such a trace is ordered by happens-before.
+   c18_*_labels_match_sites: the synchronisation event a labelled step emits is the operation
+   named by the yield site the step starts from (the site sequence is what C01/C02, C16, C03
+   compare with the running code at every step).  c18_queue_pop_clear_refuted,
+   c18_waitclose_load_needed, c18_wheel_store_release_needed: a faulty variant of Pop races in
+   the same analysis; removing the one synchronisation event an ordering rests on makes a
+   race-free run racy. *)
 From Coq Require Import String.
-From Got Require Import Base Race RaceProofs RaceInst RaceHB RaceHBProofs.
+From Got Require Import Base Race RaceProofs RaceInst RaceHB RaceHBProofs RaceMonLemmas.
+From Got Require Import Queue QueueProofs RaceQueue RaceQueueProofs.
+From Got Require Import WaitClose RaceWaitClose RaceWaitCloseProofs.
+From Got Require Import Wheel RaceWheel RaceWheelProofs.
 Local Open Scope nat_scope.
 
 (* ---- the monitor decides the relational happens-before notion of a data race ---- *)
@@ -164,3 +187,209 @@ Proof.
   split; [exact hbp_ex_early_acquire_races|]. split; [exact hbp_ex_rmw_chain_race_free|].
   vm_compute. reflexivity.
 Qed.
+
+(* ================================================================== model-level race freedom *)
+
+(* ---- loom.Queue: runs of q_step labelled by models/RaceQueue.v ----
+   rq_trace (q_init pre progs) sched = the events of the set-up thread that pushed [pre]
+   sequentially (thread id = number of threads), followed by the events of the scheduled
+   steps.  No bound on threads, programs, schedule, prefill. *)
+Theorem c18_queue_model_race_free :
+  forall (pre : list Z) (progs : list (list q_op)) (sched : list nat),
+    ~ hb_race (rq_trace (q_init pre progs) sched).
+Proof. exact rq_race_free. Qed.
+Print Assumptions c18_queue_model_race_free.
+
+Theorem c18_queue_model_conflicts_ordered :
+  forall (pre : list Z) (progs : list (list q_op)) (sched : list nat) (i j : nat),
+    i < j -> j < length (rq_trace (q_init pre progs) sched) ->
+    hb_conflict (rq_trace (q_init pre progs) sched) i j ->
+    hb_hb (rq_trace (q_init pre progs) sched) i j.
+Proof. exact rq_conflicts_ordered. Qed.
+Print Assumptions c18_queue_model_conflicts_ordered.
+
+(* the monitor run on the labelled run never flags, and the trace is well-formed for it *)
+Theorem c18_queue_model_monitor :
+  forall (pre : list Z) (progs : list (list q_op)) (sched : list nat),
+    rc_raced (rc_run (rq_nthreads (q_init pre progs)) (rq_trace (q_init pre progs) sched)) = false
+    /\ hb_wf (rq_nthreads (q_init pre progs)) (rq_trace (q_init pre progs) sched).
+Proof. exact rq_monitor_spec. Qed.
+Print Assumptions c18_queue_model_monitor.
+
+(* ---- loom.WaitClose: runs of wc_step labelled by models/RaceWaitClose.v ---- *)
+Theorem c18_waitclose_model_race_free :
+  forall (progs : list (list wc_op)) (sched : list wc_item),
+    ~ hb_race (rw_trace (wc_init progs) sched).
+Proof. exact rw_race_free. Qed.
+Print Assumptions c18_waitclose_model_race_free.
+
+Theorem c18_waitclose_model_conflicts_ordered :
+  forall (progs : list (list wc_op)) (sched : list wc_item) (i j : nat),
+    i < j -> j < length (rw_trace (wc_init progs) sched) ->
+    hb_conflict (rw_trace (wc_init progs) sched) i j ->
+    hb_hb (rw_trace (wc_init progs) sched) i j.
+Proof. exact rw_conflicts_ordered. Qed.
+Print Assumptions c18_waitclose_model_conflicts_ordered.
+
+(* ---- loom.Wheel: runs of wh_step labelled by models/RaceWheel.v, either store order ---- *)
+Theorem c18_wheel_model_race_free :
+  forall (o : wh_order) (st : Z) (n ticks : nat) (progs : list (list wh_op)) (sched : list nat),
+    ~ hb_race (rwh_trace o (wh_init st n ticks progs) sched).
+Proof. exact rwh_race_free. Qed.
+Print Assumptions c18_wheel_model_race_free.
+
+Theorem c18_wheel_model_conflicts_ordered :
+  forall (o : wh_order) (st : Z) (n ticks : nat) (progs : list (list wh_op)) (sched : list nat) (i j : nat),
+    i < j -> j < length (rwh_trace o (wh_init st n ticks progs) sched) ->
+    hb_conflict (rwh_trace o (wh_init st n ticks progs) sched) i j ->
+    hb_hb (rwh_trace o (wh_init st n ticks progs) sched) i j.
+Proof. exact rwh_conflicts_ordered. Qed.
+Print Assumptions c18_wheel_model_conflicts_ordered.
+
+(* ---- non-vacuity: concrete labelled runs that DO contain conflicting accesses, and these
+   are ordered; the orderings are exhibited directly from the relational definitions
+   (program order, release -> acquire on one object, program order), not via the monitor ---- *)
+
+(* queue holding [5]; thread 0 pushes 7, thread 1 pops twice and gets 5 then 7.
+   event 0 = the set-up thread's write of the value cell of node 1, read by thread 1 at 15
+   (through the link CAS 4 and thread 1's load 13 of head.next);
+   event 6 = thread 0's write of its node's value, read by thread 1 at 22 (link CAS 10, load 20) *)
+Example c18_queue_model_nonvacuous :
+  let s := q_init [5%Z] [[QPush 7%Z]; [QPop; QPop]] in
+  let sched := [0;0;0;0;0; 1;1;1;1;1;1; 0; 1;1;1;1;1;1] in
+  let tr := rq_trace s sched in
+  q_popped (q_trace s sched) = [5%Z; 7%Z] /\
+  length tr = 24 /\
+  hb_conflict tr 0 15 /\ hb_hb tr 0 15 /\
+  hb_conflict tr 6 22 /\ hb_hb tr 6 22.
+Proof.
+  cbv zeta. remember (rq_trace _ _) as tr eqn:E. vm_compute in E. subst tr.
+  split; [vm_compute; reflexivity|]. split; [reflexivity|].
+  split; [|split; [|split]].
+  - apply (rm_conflict_intro _ 0 15 2 1 (RWrite 1) (RRead 1) 1); try reflexivity; [discriminate|left; reflexivity].
+  - apply (rm_hb_chain _ 0 4 13 15 2 1 (RWrite 1) (RAcqRel 2) (RAcq 2) (RRead 1) 2); try reflexivity; lia.
+  - apply (rm_conflict_intro _ 6 22 0 1 (RWrite 2) (RRead 2) 2); try reflexivity; [discriminate|left; reflexivity].
+  - apply (rm_hb_chain _ 6 10 20 22 0 1 (RWrite 2) (RAcqRel 3) (RAcq 3) (RRead 2) 3); try reflexivity; lia.
+Qed.
+
+(* thread 0 calls C() on a zero WaitClose (lazy init under the mutex), thread 1 Close(cb)
+   with a yielding callback, thread 2 WaitUtil.
+   3 = thread 0's write of closeChan, read by thread 2 at 10 (store of state 5 -> load 9);
+   4 = the write half of thread 0's atomic store of state, read PLAINLY by thread 1 under the
+       mutex at 11 (Unlock 6 -> Lock 8);
+   2 = thread 0's plain read of state, against thread 1's atomic store 14 (same mutex edge) *)
+Example c18_waitclose_model_nonvacuous :
+  let s := wc_init [[OpC]; [OpClose (Cb ONil true)]; [OpWait]] in
+  let sched := map IRun [0;0;0;0; 1;1;1; 2;2; 1;1; 2;2;2; 0;0] in
+  let tr := rw_trace s sched in
+  length tr = 18 /\
+  hb_conflict tr 3 10 /\ hb_hb tr 3 10 /\
+  hb_conflict tr 4 11 /\ hb_hb tr 4 11 /\
+  hb_conflict tr 2 14 /\ hb_hb tr 2 14.
+Proof.
+  cbv zeta. remember (rw_trace _ _) as tr eqn:E. vm_compute in E. subst tr.
+  split; [reflexivity|]. split; [|split; [|split; [|split; [|split]]]].
+  - apply (rm_conflict_intro _ 3 10 0 2 (RWrite 1) (RRead 1) 1); try reflexivity; [discriminate|left; reflexivity].
+  - apply (rm_hb_chain _ 3 5 9 10 0 2 (RWrite 1) (RRel 0) (RAcq 0) (RRead 1) 0); try reflexivity; lia.
+  - apply (rm_conflict_intro _ 4 11 0 1 (RWrite 0) (RRead 0) 0); try reflexivity; [discriminate|left; reflexivity].
+  - apply (rm_hb_chain _ 4 6 8 11 0 1 (RWrite 0) (RRel 1) (RAcq 1) (RRead 0) 1); try reflexivity; lia.
+  - apply (rm_conflict_intro _ 2 14 0 1 (RRead 0) (RWrite 0) 0); try reflexivity; [discriminate|right; reflexivity].
+  - apply (rm_hb_chain _ 2 6 8 14 0 1 (RRead 0) (RRel 1) (RAcq 1) (RWrite 0) 1); try reflexivity; lia.
+Qed.
+
+(* a wheel with 2 buckets, 3 ticks, requester 1 = NewTimer, requester 2 = AfterFunc.
+   0 = NewWheel's write of the c field of the initial wheelData 0, read by the ticker's close
+       at 9 (start released at 2, acquired at 3);
+   7 = the ticker's write of the fresh wheelData 2, read by requester 2 at 26
+       (StorePointer 8 -> LoadPointer 24) *)
+Example c18_wheel_model_nonvacuous :
+  let s := wh_init 10%Z 2 3 [[WhNew 10%Z]; [WAfter 5%Z]] in
+  let sched := [0;0;0;0;0;0; 1;1;1;1; 0;0;0;0;0;0; 2;2;2;2; 0;0;0;0;0;0] in
+  let tr := rwh_trace WFixed s sched in
+  length tr = 34 /\
+  hb_conflict tr 0 9 /\ hb_hb tr 0 9 /\
+  hb_conflict tr 7 26 /\ hb_hb tr 7 26.
+Proof.
+  cbv zeta. remember (rwh_trace _ _ _) as tr eqn:E. vm_compute in E. subst tr.
+  split; [reflexivity|]. split; [|split; [|split]].
+  - apply (rm_conflict_intro _ 0 9 3 0 (RWrite 0) (RRead 0) 0); try reflexivity; [discriminate|left; reflexivity].
+  - apply (rm_hb_chain _ 0 2 3 9 3 0 (RWrite 0) (RRel 1) (RAcq 1) (RRead 0) 1); try reflexivity; lia.
+  - apply (rm_conflict_intro _ 7 26 0 2 (RWrite 2) (RRead 2) 2); try reflexivity; [discriminate|left; reflexivity].
+  - apply (rm_hb_chain _ 7 8 24 26 0 2 (RWrite 2) (RRel 2) (RAcq 2) (RRead 2) 2); try reflexivity; lia.
+Qed.
+
+(* ---- the analysis discriminates ----
+   c18_queue_pop_clear_refuted: the labelled runs of the variant of Pop whose winner clears the
+   new dummy's value (next.value = nil after the head CAS: a plain write) DO race - two
+   poppers, both past their read of next.value when the first head CAS succeeds.
+   c18_waitclose_load_needed / c18_wheel_store_release_needed: in concrete runs of the models as
+   they are, deleting the one synchronisation event the ordering rests on (C()'s atomic load
+   of wc.state; the release of onTicker's StorePointer) turns the race-free trace into a
+   racy one. *)
+Theorem c18_queue_pop_clear_refuted :
+  hb_race (rq_trace_clear (q_init [5%Z; 6%Z] [[QPop]; [QPop]]) [0;0;0;0;0; 1;1;1;1;1; 0]).
+Proof. exact rq_pop_clear_refuted. Qed.
+Print Assumptions c18_queue_pop_clear_refuted.
+
+Theorem c18_waitclose_load_needed :
+  let tr := rw_trace (wc_init [[OpC]; [OpClose (Cb ONil true)]; [OpWait]])
+                     (map IRun [0;0;0;0; 1;1;1; 2;2; 1;1; 2;2;2; 0;0]) in
+  nth_error tr 9 = Some (2, RAcq rw_state) /\ hb_race (firstn 9 tr ++ skipn 10 tr).
+Proof. exact rw_without_load_refuted. Qed.
+Print Assumptions c18_waitclose_load_needed.
+
+Theorem c18_wheel_store_release_needed :
+  let tr := rwh_trace WOrig (wh_init 10%Z 2 1 [[WhNew 10%Z]]) [1;1; 0;0;0;0; 1] in
+  nth_error tr 8 = Some (0, RWrite 2) /\ nth_error tr 9 = Some (0, RRel (rwh_slot 0)) /\
+  nth_error tr 11 = Some (1, RRead 2) /\
+  ~ hb_race tr /\ hb_race (firstn 9 tr ++ skipn 10 tr).
+Proof. exact rwh_without_store_release_refuted. Qed.
+Print Assumptions c18_wheel_store_release_needed.
+
+(* ---- the labelling agrees with the yield sites ----
+   C01/C02 (queue), C16 (WaitClose) and C03 (wheel) check at EVERY step of every executed
+   schedule that the real goroutine is parked at the yield site the model predicts (q_site_pc /
+   wc_site_pc / wh_site; the sites sit directly in front of the atomic operations and around
+   Lock/Unlock in the source).  The event labelling is consistent with that classification:
+   the synchronisation event a labelled step emits is the operation its site names
+   (rm_sync e = e is a release/acquire event, i.e. not a plain access). *)
+Theorem c18_queue_labels_match_sites :
+  forall (s : q_state) (g : rq_ghost) (i : nat) (pc : q_pc) (todo : list q_op),
+    match q_site_pc pc with
+    | 0 => Forall (fun e => ~ rm_sync e) (fst (rq_step_pc s g i pc todo))
+    | 1 => exists o rest, fst (rq_step_pc s g i pc todo) = RAcq o :: rest
+                          /\ Forall (fun e => ~ rm_sync e) rest
+    | _ => exists b o, fst (rq_step_pc s g i pc todo) = [rq_cas b o]
+    end.
+Proof. exact rq_sites. Qed.
+Print Assumptions c18_queue_labels_match_sites.
+
+Theorem c18_waitclose_labels_match_sites :
+  forall (g : wc_shared) (pc : wc_pc),
+    match wc_site_pc pc with
+    | 1 => exists rest, rw_step_pc g false pc = RAcq rw_state :: rest
+                        /\ Forall (fun e => ~ rm_sync e) rest
+    | 2 => rw_step_pc g false pc = [] \/ rw_step_pc g false pc = [RAcq rw_mutex]
+    | 3 => exists rest, rw_step_pc g false pc = RRead rw_xstate :: rest
+                        /\ Forall (fun e => forall o, ~ hb_is_acq e o) rest
+    | 5 => rw_step_pc g false pc = rw_store_unlock
+    | _ => Forall (fun e => ~ rm_sync e) (rw_step_pc g false pc)
+    end.
+Proof. exact rw_sites. Qed.
+Print Assumptions c18_waitclose_labels_match_sites.
+
+Theorem c18_wheel_labels_match_sites :
+  forall (o : wh_order) (s : wh_state) (tid : nat),
+    match wh_site o s tid with
+    | 3 | 5 | 6 => exists rest, rwh_step o s tid = RAcq rwh_pos :: rest
+                                /\ Forall (fun e => ~ rm_sync e) rest
+    | 4 | 7 => rwh_step o s tid = [] \/
+               exists j rest, rwh_step o s tid = RAcq (rwh_slot j) :: rest
+                              /\ Forall (fun e => ~ rm_sync e) rest
+    | 8 => rwh_step o s tid = [RRel rwh_pos]
+    | 9 => exists lp, rwh_step o s tid = rwh_store_slot s lp
+    | 10 => exists last, rwh_step o s tid = [RRead last]
+    | _ => True
+    end.
+Proof. exact rwh_sites. Qed.
+Print Assumptions c18_wheel_labels_match_sites.
